@@ -98,7 +98,11 @@ pub unsafe fn build_tokens(r: &mut Rec, alg: Algorithm, nblocks: usize, seed: u8
     let (f, ru, ch) = block_code(0);
     let ctx = CString::new("authority context").unwrap();
     r.cmp_bool("builder.set_context", c::biscuit_builder_set_context(cb.as_mut(), ctx.as_ptr()), true);
-    r.cmp_bool("builder.set_root_key_id", c::biscuit_builder_set_root_key_id(cb.as_mut(), 7), true);
+    // the hint varies with the scenario: unset, the boundary values and ordinary ones
+    let key_id: Option<u32> = [None, Some(0), Some(1), Some(7), Some(0x8000_0000), Some(u32::MAX)][(seed as usize + nblocks) % 6];
+    if let Some(id) = key_id {
+        r.cmp_bool("builder.set_root_key_id", c::biscuit_builder_set_root_key_id(cb.as_mut(), id), true);
+    }
     for (n, t) in [("add_fact", &f), ("add_rule", &ru), ("add_check", &ch)] {
         let cs = CString::new(t.as_str()).unwrap();
         let ok = match n {
@@ -111,9 +115,12 @@ pub unsafe fn build_tokens(r: &mut Rec, alg: Algorithm, nblocks: usize, seed: u8
     let c_tok = c::biscuit_builder_build(cb.as_ref(), Some(&*root.c_kp), bseed.as_ptr(), 32);
     c::biscuit_builder_free(Some(Box::from_raw(cb)));
     let mut rng: StdRng = SeedableRng::from_seed(bseed);
-    let r_tok = BiscuitBuilder::new()
-        .context("authority context".into())
-        .root_key_id(7)
+    let rb = BiscuitBuilder::new().context("authority context".into());
+    let rb = match key_id {
+        Some(id) => rb.root_key_id(id),
+        None => rb,
+    };
+    let r_tok = rb
         .fact(f.as_str())
         .and_then(|b| b.rule(ru.as_str()))
         .and_then(|b| b.check(ch.as_str()))
